@@ -990,6 +990,36 @@ func runC04(a vh.Args, o *vh.Oracle, r *vh.Result) error {
 		plan = append(plan, rng.Intn(300))
 	}
 	plan = append(plan, big...)
+	// Row counts at and around the sizes where a writer or reader could batch: powers of two and their
+	// multiples (64..2048 rows), the 4096-byte bufio blocks (99/100/101, 203/204/205 rows: 104+40n crossing
+	// 4096 and 8192), the 64 KiB ReadN threshold (1635..1637 rows).  Written, laid out and read back only
+	// (WF indexes: the round trip and the fixed-offset layout are the predicate); no mutation family.
+	var boundary []int
+	for _, b := range []int{64, 128, 256, 384, 512, 1024, 2048} {
+		boundary = append(boundary, b-1, b, b+1)
+	}
+	boundary = append(boundary, 99, 100, 101, 102, 203, 204, 205, 640, 1635, 1636, 1637, 1638)
+	if a.Tier == "thorough" {
+		for k := 1; k <= 32; k++ {
+			boundary = append(boundary, 128*k)
+		}
+		boundary = append(boundary, 4095, 4096, 4097, 8192)
+	}
+	for _, nrows := range boundary {
+		c := c04GenIndex(rng, nrows)
+		for !c04WF(c) {
+			c = c04GenIndex(rng, nrows)
+		}
+		if c.Digest == "sha256" {
+			c.Flags &^= c04SHA512Flag
+		} else {
+			c.Flags |= c04SHA512Flag
+		}
+		r.Dist("encode-boundary-rows")
+		if _, err := c04Encode(a, o, r, c); err != nil {
+			return err
+		}
+	}
 	for pi, nrows := range plan {
 		c := c04GenIndex(rng, nrows)
 		file, err := c04Encode(a, o, r, c)
